@@ -63,11 +63,12 @@ type Prog struct {
 	boundRecv   map[*ssa.Parameter]ssa.Value
 	boundMethod map[*ssa.Function]*ssa.Function // synthetic $bound wrapper -> method
 	// implOf: thin forwarding wrapper (func hasCycle(g, a, b) bool { return g.hasCycle(a, b) }) -> the function it forwards to
-	defaultOf map[*ssa.Function]*ssa.Function
-	inlinedInto map[string]string // role name -> the caller it was merged into
-	fwdOf     map[*ssa.Function]*fwdInfo
-	roleNames map[string]bool
-	implOf    map[*ssa.Function]*ssa.Function
+	defaultOf   map[*ssa.Function]*ssa.Function
+	nilViewOf   map[*ssa.Function]*ssa.Function // predicate -> the function whose non-nil result it tests
+	inlinedInto map[string]string               // role name -> the caller it was merged into
+	fwdOf       map[*ssa.Function]*fwdInfo
+	roleNames   map[string]bool
+	implOf      map[*ssa.Function]*ssa.Function
 }
 
 type callSite struct {
@@ -203,6 +204,13 @@ func loadProgramRaw(repo string, cfg BuildConfig) (*Prog, error) {
 		for t := p.implOf[f]; p.implOf[t] != nil && !seenW[p.implOf[t]]; t = p.implOf[f] {
 			seenW[t] = true
 			p.implOf[f] = p.implOf[t]
+		}
+	}
+	// nil-test views: a predicate kept as `return G(params...) != nil` after G started to return what it found
+	p.nilViewOf = map[*ssa.Function]*ssa.Function{}
+	for _, f := range p.Fns {
+		if g := nilViewTarget(p, f); g != nil {
+			p.nilViewOf[f] = g
 		}
 	}
 	// defaulting wrappers: the old name kept as `return g(params..., <constants>)` after the implementation gained
@@ -702,6 +710,53 @@ func memoWrapperTarget(p *Prog, f *ssa.Function) *ssa.Function {
 		if bad {
 			return nil
 		}
+	}
+	return g
+}
+
+// nilViewTarget: f's whole body is `return G(params in their order) != nil` (f is bool-valued): f(args) holds exactly when
+// G(args) is not nil.
+func nilViewTarget(p *Prog, f *ssa.Function) *ssa.Function {
+	if f.Parent() != nil || len(f.Blocks) != 1 || len(f.Params) == 0 || f.Signature.Results().Len() != 1 || f.Signature.Results().At(0).Type().String() != "bool" {
+		return nil
+	}
+	var call *ssa.Call
+	var cmp *ssa.BinOp
+	for _, in := range f.Blocks[0].Instrs {
+		switch x := in.(type) {
+		case *ssa.Call:
+			if call != nil {
+				return nil
+			}
+			call = x
+		case *ssa.BinOp:
+			if cmp != nil {
+				return nil
+			}
+			cmp = x
+		case *ssa.Return, *ssa.DebugRef:
+		default:
+			return nil
+		}
+	}
+	if call == nil || cmp == nil || cmp.Op != token.NEQ {
+		return nil
+	}
+	if !((cmp.X == ssa.Value(call) && isNilConst(cmp.Y)) || (cmp.Y == ssa.Value(call) && isNilConst(cmp.X))) {
+		return nil
+	}
+	g := call.Call.StaticCallee()
+	if g == nil || g == f || !p.InModule(g) || g.Blocks == nil || len(call.Call.Args) != len(f.Params) {
+		return nil
+	}
+	for i, a := range call.Call.Args {
+		if a != ssa.Value(f.Params[i]) {
+			return nil
+		}
+	}
+	ret, ok := f.Blocks[0].Instrs[len(f.Blocks[0].Instrs)-1].(*ssa.Return)
+	if !ok || len(ret.Results) != 1 || ret.Results[0] != ssa.Value(cmp) {
+		return nil
 	}
 	return g
 }
